@@ -20,7 +20,7 @@ from typing import Any, Callable, Dict, List, Optional, Sequence, Tuple
 import numpy
 
 VERIF = os.path.dirname(os.path.dirname(os.path.abspath(__file__)))
-EVIDENCE_DIR = os.path.join(VERIF, "evidence")
+EVIDENCE_DIR = os.environ.get("NV_EVIDENCE_DIR") or os.path.join(VERIF, "evidence")  # (seed runs against scratch worktrees keep theirs apart)
 REPLAY_DIR = os.path.join(VERIF, "replay")
 KNOWN_FILE = os.path.join(VERIF, "known_findings.json")
 
